@@ -21,6 +21,7 @@ ENTRY = {
             "random graphs, self references of every kind; the graph is READ BACK from the Go value by reflection (identity = the addresses the encoder keys on) and given to the extracted Coq model with thr = 1000: "
             "verdict ok / cycle-error compared impl vs encoding/json vs model (e.graph), and with sorted map keys the TYPE named in the error vs the node at which the model reports the cycle (e.graphk); "
             "deep acyclic values (7 shapes) at 999/1000/1001/10000/100000 levels in-process. "
+            "The whole stream except the known crashers is run a second time in a -race build (checkptr: every unsafe.Pointer conversion and pointer arithmetic checked against its allocation). "
             "KNOWN-FINDING classes are executed on every run (child process dies with `fatal stack overflow`): documents and values nested 2-20 million levels (.deepnest), self-referential named types without a struct (.selfref)",
     "nontrivial": nontrivial_default,
     "trusted_base": COMMON_TB + [
@@ -31,7 +32,10 @@ ENTRY = {
     ],
     "assumptions": ["heap graphs are well-formed: between two references lies a finite tree of structs, arrays and interface values (checked by the extracted wfb on every generated graph; true of every Go value)",
                     "a hang is a case that exceeds 90 s of wall-clock time"],
-    "builds": [("harness_c06", "verif,c06")],
+    # the second binary is built with -race, which also switches on the compiler's checkptr instrumentation: every unsafe.Pointer
+    # conversion and pointer arithmetic of the package is checked against the allocation it came from (a violation is a fatal error)
+    "race_thorough_only": True,   # the -race/checkptr binary (about 9x slower) runs in the thorough tier only
+    "builds": [("harness_c06", "verif,c06"), ("harness_c06_race", "verif,c06")],
 }
 CLAIM = {
     "text": "Theorems (Properties/C06.v). Encoder cycle detection, for EVERY finite well-formed heap graph, root and threshold: the traversal terminates within recursion depth (thr + nodes + 1) * (nodes + 2) (cycle_total); "
